@@ -287,11 +287,35 @@ func Release(l *LockState, mode int) {
 	}
 }
 
+// DeferGo (sequential harnesses built with the overlay): goroutines spawned by the
+// code under test are queued instead of started, and run by RunDeferred at a point
+// the harness chooses - this makes their effects deterministic.
+var (
+	DeferGo  bool
+	Deferred []func()
+)
+
+// RunDeferred runs and clears the queued goroutine bodies; returns how many ran.
+func RunDeferred() int {
+	n := 0
+	for len(Deferred) > 0 {
+		fn := Deferred[0]
+		Deferred = Deferred[1:]
+		fn()
+		n++
+	}
+	return n
+}
+
 // Go turns a `go` statement of the code under test into a scheduled thread.
 //
 //go:norace
 func Go(fn func()) {
 	if !Active() {
+		if DeferGo {
+			Deferred = append(Deferred, fn)
+			return
+		}
 		go fn()
 		return
 	}
